@@ -24,11 +24,21 @@ def one(name):
             sig[:160], str(meta.get('check_result_first', ''))[:60])
 
 
-with concurrent.futures.ThreadPoolExecutor(3) as ex:
+with concurrent.futures.ThreadPoolExecutor(int(os.environ.get('SWEEP_PAR', '3'))) as ex:
     rows = list(ex.map(one, names))
+# rows of earlier runs are kept in <dir>/sweep_rows.json so that a run restricted to some prefixes refreshes only those rows
+_rp = os.path.join(V, 'benign', 'sweep_rows.json')
+_all = {}
+if only and os.path.exists(_rp):
+    _all = {r[0]: tuple(r) for r in json.load(open(_rp))}
 for r in rows:
+    _all[r[0]] = r
+_key = lambda n: (n.split('-')[0], int(n.split('-')[1]))
+rows_now, rows = rows, [_all[n] for n in sorted(_all, key=_key)]
+json.dump(rows, open(_rp, 'w'), indent=0)
+for r in rows_now:
     print(r[0], r[5], r[6][:120], flush=True)
-if not only:
+if True:
     with open(os.path.join(V, 'benign', 'RESULTS.md'), 'w') as f:
         f.write('# Property-preserving changes vs. checks\n\nProduced by `tools/benignsweep.py`: every stored change is applied to a scratch copy of /repo HEAD; its demonstration '
                 '(which tests the property) before/after, the 133-test suite with the change, and the quick check of its property against the changed copy - which must stay silent.\n\n'
